@@ -94,16 +94,14 @@ class CubeCountsIface:
             self.rows_base = B.spec_tensor((R,), lambda i: B.Sum(C, lambda j: rd(cnt, i, j)))
             self.row_bases = B.spec_tensor((R, C), lambda i, j: rd(self.rows_base, i))
         else:
-            e = B.tensor(tag + ".e_rb", (R, C), nonneg=True)
             self.rows_base = None
-            self.row_bases = B.spec_tensor((R, C), lambda i, j: rd(cnt, i, j) + rd(e, i, j))
+            self.row_bases = B.tensor(tag + ".row_bases", (R, C), nonneg=True, ge=[cnt])
         if rows_cat:
             self.columns_base = B.spec_tensor((C,), lambda j: B.Sum(R, lambda i: rd(cnt, i, j)))
             self.column_bases = B.spec_tensor((R, C), lambda i, j: rd(self.columns_base, j))
         else:
-            e2 = B.tensor(tag + ".e_cb", (R, C), nonneg=True)
             self.columns_base = None
-            self.column_bases = B.spec_tensor((R, C), lambda i, j: rd(cnt, i, j) + rd(e2, i, j))
+            self.column_bases = B.tensor(tag + ".column_bases", (R, C), nonneg=True, ge=[cnt])
         self.table_base = None
         self.rows_table_base = None
         self.columns_table_base = None
@@ -114,22 +112,18 @@ class CubeCountsIface:
             self.rows_table_base = B.spec_tensor((R,), lambda i: tb)
             self.columns_table_base = B.spec_tensor((C,), lambda j: tb)
         elif cols_cat:
-            et = B.tensor(tag + ".e_tb", (R,), nonneg=True)
-            self.rows_table_base = B.spec_tensor(
-                (R,), lambda i: B.Sum(C, lambda j: rd(self.column_bases, i, j)) + rd(et, i)
-            )
+            # each row item has its own table base: at least its row base and every column
+            # base of the row
+            col_sum = B.spec_tensor((R,), lambda i: B.Sum(C, lambda j: rd(self.column_bases, i, j)))
+            self.rows_table_base = B.tensor(tag + ".rows_table_base", (R,), nonneg=True, ge=[col_sum])
             self.table_bases = B.spec_tensor((R, C), lambda i, j: rd(self.rows_table_base, i))
         elif rows_cat:
-            et = B.tensor(tag + ".e_tb", (C,), nonneg=True)
-            self.columns_table_base = B.spec_tensor(
-                (C,), lambda j: B.Sum(R, lambda i: rd(self.row_bases, i, j)) + rd(et, j)
-            )
+            row_sum = B.spec_tensor((C,), lambda j: B.Sum(R, lambda i: rd(self.row_bases, i, j)))
+            self.columns_table_base = B.tensor(tag + ".columns_table_base", (C,), nonneg=True, ge=[row_sum])
             self.table_bases = B.spec_tensor((R, C), lambda i, j: rd(self.columns_table_base, j))
         else:
-            et = B.tensor(tag + ".e_tb", (R, C), nonneg=True)
-            self.table_bases = B.spec_tensor(
-                (R, C),
-                lambda i, j: rd(self.row_bases, i, j) + rd(self.column_bases, i, j) - rd(cnt, i, j) + rd(et, i, j),
+            self.table_bases = B.tensor(
+                tag + ".table_bases", (R, C), nonneg=True, ge=[self.row_bases, self.column_bases]
             )
         self.diff_nans = diff_nans
         self.stub = B.stub(
